@@ -102,6 +102,8 @@ def main():
             add(base[mode + ":repeat"], "repeated seeded call in the same process")
             if mode + ":after-abort" in base:
                 add(base[mode + ":after-abort"], "repeated seeded call after another run was aborted by an exception")
+            if mode + ":same-objects" in base:
+                add(base[mode + ":same-objects"], "the same seeded call made on the very argument objects (graph, model graphs, IC dict, initial lists) an earlier call with another seed was given")
             if mode + ":fresh-graph" in base:
                 add(base[mode + ":fresh-graph"], "the same seeded call on a freshly built equal graph (the first graph object had been simulated on before its weights were edited in place)")
             if sc["sim"] in CONT:
